@@ -465,12 +465,22 @@ Section Numeric.
     let rows := combine (a_rows_pinned n) w in
     unvec D (fun x => - suml o rows (fun rw => conj (fst rw x) * snd rw)).
 
-  (* _tp_proj on a 4^n x 4^n matrix *)
+  (* _tp_proj on a 4^n x 4^n matrix.  Choi matrices are ordered output (x) input (choi_from_unitary:
+     index = out * dim + in), so trace preservation is "the partial trace over the OUTPUT (first) factor is
+     the identity on the input".  Repaired code: einsum [0,1,0,3] and kron(identity, variation / dim).
+     The pinned code traced over the second (input) factor, which is the unitality condition in this
+     ordering - left over from the input-first convention the MLE used before findings F8/F9 were repaired. *)
   Definition partial_trace (dim : nat) (choi : mat) : mat :=
-    fun i j => sumn o dim (fun k => choi (i * dim + k)%nat (j * dim + k)%nat).
+    fun i j => sumn o dim (fun k => choi (k * dim + i)%nat (k * dim + j)%nat).
   Definition tp_proj (n : nat) (choi : mat) : mat :=
     let dim := (2 ^ n)%nat in
     let variation : mat := fun i j => partial_trace dim choi i j - mid o i j in
+    fun r c => choi r c - kron dim (mid o) (fun i j => variation i j * kinv o (pow2 n)) r c.
+  Definition partial_trace_pinned (dim : nat) (choi : mat) : mat :=
+    fun i j => sumn o dim (fun k => choi (i * dim + k)%nat (j * dim + k)%nat).
+  Definition tp_proj_pinned (n : nat) (choi : mat) : mat :=
+    let dim := (2 ^ n)%nat in
+    let variation : mat := fun i j => partial_trace_pinned dim choi i j - mid o i j in
     fun r c => choi r c - kron dim (fun i j => variation i j * kinv o (pow2 n)) (mid o) r c.
 
   (* ---- noiseless process experiment at the qubit level ---------------------
